@@ -16,6 +16,8 @@ for d in sorted(os.listdir(V+'/seeded')):
     log=open(sd+'/confirm.log').read()
     base=re.search(r'base commit: (\S+)',log).group(1)
     det=matrix.get(d)
+    if det and 'DOES NOT' in det:
+        sys.exit(f'{d}: patch does not apply to HEAD - add seeded/{d}/patch.head.diff')
     old=json.load(open(sd+'/meta.json')) if os.path.exists(sd+'/meta.json') else {}
     if det is None:
         det=' '.join(old.get('detected_by_rules',[])) or 'MISSED'
